@@ -156,8 +156,12 @@ pub(crate) fn create_for_loop_iterator(value: &Value) -> Option<ForLoopIterator>
         }),
 
         ValueInner::Map(map) => {
-            let pairs: Vec<(Key<'static>, Value)> =
+            let mut pairs: Vec<(Key<'static>, Value)> =
                 map.iter().map(|(k, v)| (k.clone(), v.clone())).collect();
+            // Keys are sorted to have deterministic output if preserve_order is not used
+            if cfg!(not(feature = "preserve_order")) {
+                pairs.sort_by(|a, b| a.0.cmp(&b.0));
+            }
             Some(ForLoopIterator::Map {
                 pairs: pairs.into_iter(),
             })
